@@ -1,6 +1,6 @@
 """Lmdp (Cisco Meraki discovery protocol codec sub-check: C19, C05, C07, C01; C06 known finding) configuration for ./check"""
 CONF = {
-    'interesting': ['truncated-prefix-of-valid', 'type-every-value', 'tlv-length-extreme', 'tlv-header-cut', 'length-extreme', 'text-corner-case',
+    'interesting': ['truncated-prefix-of-valid', 'registered-decoder', 'type-every-value', 'tlv-length-extreme', 'tlv-header-cut', 'length-extreme', 'text-corner-case',
                     'string-tlvs', 'float-tlvs', 'ip-tlv', 'bool-tlv', 'residue-all-fields', 'residue-after-error-fields', 'after-end-marker',
                     'error-after-fields-set', 'error-residue', 'residue-after-error', 'dirty-buffer', 'no-fixlengths', 'odd-payload', 'decode-error',
                     'malformed', 'seed'],
